@@ -21,7 +21,12 @@ R = Registry(
         "functions and the 6 ColumnOperators methods agree with their names; the 12 compiler visitors "
         "place the '%' literal by stem, lower-case exactly the i-variants and delegate to the LIKE "
         "visitor of the same polarity; every terminal LIKE/ILIKE visitor (base and dialect overrides) "
-        "renders the keyword of its name and an ESCAPE clause from binary.modifiers['escape']."
+        "renders the keyword of its name and an ESCAPE clause from binary.modifiers['escape']; no visitor of the "
+        "family (nor a helper it calls) reads an attribute of a bound operand that BindParameter keeps out of its "
+        "cache key (value, callable, effective_value), so the compiled string does not depend on the operand; for "
+        "the variants rendered as lower(x) LIKE lower(pattern), the lower-cased autoescape pattern still decodes "
+        "to the lower-cased operand under the rendered ESCAPE character (default, non-letter, upper- and "
+        "lower-case letter escape characters)."
     ),
     not_decided="rows matched on a backend (collation, case folding, backend LIKE grammar deviations).",
 )
@@ -57,12 +62,9 @@ def _like_decode(pattern: str, esc: str):
     return out
 
 
-@R.rule("C08-R1", floor=6, template="T-PATH/T-FLOW (bounded model of the extracted replace chain)",
-        desc="_escaped_like_impl: on the autoescape path the statements applied to the operand yield a "
-             "pattern that decodes (under the forwarded escape character) to the literal operand, for "
-             "each class of escape character; without autoescape operand and escape pass unchanged; "
-             "every return forwards the escape")
-def r1(ctx):
+def _chain_runner(ctx):
+    """-> (FuncInfo of _escaped_like_impl, name of its `fn` parameter, run(operand, escape, autoescape) ->
+    (args, kwargs) the `fn` parameter is finally called with): a model run of the implementation."""
     f = ctx.func(f"{OPS}::_escaped_like_impl")
     ctx.require(len(f.params) >= 4, "_escaped_like_impl no longer has (fn, other, escape, autoescape)")
     p_fn, p_other, p_escape, p_auto = f.params[:4]
@@ -91,6 +93,17 @@ def r1(ctx):
                     f"its `{p_fn}` parameter (got {kind})")
         _, args, kws = val
         return args, kws
+
+    return f, p_fn, run
+
+
+@R.rule("C08-R1", floor=6, template="T-PATH/T-FLOW (bounded model of the extracted replace chain)",
+        desc="_escaped_like_impl: on the autoescape path the statements applied to the operand yield a "
+             "pattern that decodes (under the forwarded escape character) to the literal operand, for "
+             "each class of escape character; without autoescape operand and escape pass unchanged; "
+             "every return forwards the escape")
+def r1(ctx):
+    f, p_fn, run = _chain_runner(ctx)
 
     # every way out forwards one operand and the escape: judged on the model runs (all four escape classes,
     # autoescape on and off), not on the shape of the return statements
@@ -423,12 +436,17 @@ def _binary_names(fn: FuncInfo):
 
 
 # ---- model of the visitor family -------------------------------------------------------------------------
-class _Term:
+class _Term(ModelObj):
     """SQL expression in the model: atoms 'L' (binary.left), 'R' (binary.right), 'P' (the '%' literal);
-    ('cat', a, b) concatenation; ('lower', x) case-insensitive wrapper."""
+    ('cat', a, b) concatenation; ('lower', x) case-insensitive wrapper.  Data attributes read off an operand
+    (`operand.type` ...) are opaque model objects: what may be read is C08-R4's business, not the model's."""
 
     def __init__(self, kind, *parts):
+        super().__init__(f"operand:{kind}", attr_default=lambda a, _k=kind: ModelObj(f"<{_k}>.{a}"))
         self.kind, self.parts = kind, parts
+
+    def m_call(self, attr, args, kwargs, mini, node):
+        return self.m_method(attr, args, kwargs, mini, node)
 
     def __add__(self, other):
         if isinstance(other, _Term):
@@ -484,7 +502,8 @@ def _render_operand(x, *a, **kw):
     return x.render() if isinstance(x, _Term) else f"<?{x!r}>"
 
 
-def _run_visitor(ctx, cls: ClassInfo, fn: FuncInfo, escape, own_operator=True, selfobj=None, memo_seen=None):
+def _run_visitor(ctx, cls: ClassInfo, fn: FuncInfo, escape, own_operator=True, selfobj=None, memo_seen=None,
+                 binary=None, operator=None):
     """Run one visitor in the model.  Sibling visitors of the LIKE family are stubbed (the delegation is the
     result), every other `self.<helper>()` / module helper is followed.  -> (result, binary passed in, selfobj)."""
 
@@ -532,8 +551,10 @@ def _run_visitor(ctx, cls: ClassInfo, fn: FuncInfo, escape, own_operator=True, s
     neg, ci, stem = _parse_visit(fn.name)
     own = f"{'not_' if neg else ''}{'i' if ci else ''}{stem}_op"
     mini = Mini2(name_hook=name_hook, func_resolver=resolver, what=f"{cls.qualname}.{fn.name}")
-    operator = modobj.m_getattr(own if own_operator else "some_other_op", mini, None)
-    binary = _Binary(_Term("L"), _Term("R"), {} if escape is None else {"escape": escape})
+    if operator is None:
+        operator = modobj.m_getattr(own if own_operator else "some_other_op", mini, None)
+    if binary is None:
+        binary = _Binary(_Term("L"), _Term("R"), {} if escape is None else {"escape": escape})
     val = mini.run_top(fn, [selfobj, binary, operator], {}, selfobj)
     return val, binary, selfobj
 
@@ -878,6 +899,205 @@ def r3(ctx):
                   "no lower(); ILIKE rendered natively", fn.loc)
 
 
+# ---------------------------------------------------------------------------------------- R4
+def _family_visitors(ctx):
+    """[(class, FuncInfo)] every definition of a LIKE family visitor: base compiler and dialect overrides."""
+    base = ctx.index.cls(f"{COMP}::SQLCompiler")
+    out = []
+    for cls in [base] + sorted(ctx.index.subclasses(base), key=lambda c: c.key):
+        for nm in _FAMILY:
+            fn = cls.methods.get(nm)
+            if fn is not None:
+                out.append((cls, fn))
+    return out
+
+
+def _extracted_bind_attrs(ctx):
+    """(value-carrying attributes of BindParameter that are NOT part of its cache key, attributes that are).
+    Read from the class itself: the names of its traversal list and the properties computed from them, minus
+    what the key tuple returned by its own `_gen_cache_key` reads off `self`."""
+    bp = ctx.index.cls("sql/elements.py::BindParameter")
+    gck = bp.methods.get("_gen_cache_key")
+    ctx.require(gck is not None and gck.params, "BindParameter no longer defines its own _gen_cache_key")
+    ctx.functions_analysed.add(gck.key)
+    me = gck.params[0]
+    keyed = set()
+    for r in returns_of(gck.node):
+        if r.value is None:
+            continue
+        for n in ast.walk(r.value):
+            if isinstance(n, ast.Attribute) and isinstance(n.value, ast.Name) and n.value.id == me:
+                keyed.add(n.attr)
+    ctx.require(keyed, "BindParameter._gen_cache_key: no key tuple built from attributes of the parameter")
+    ti = ctx.ev.class_value(bp, "_traverse_internals")
+    names = {t[0] for t in ti if isinstance(t, (tuple, list)) and t and isinstance(t[0], str)} \
+        if isinstance(ti, (list, tuple)) else set()
+    ctx.require(names, "BindParameter._traverse_internals is not a literal list of (name, symbol)")
+    extracted = names - keyed
+    grew = True
+    while grew:
+        grew = False
+        for nm, f in bp.methods.items():
+            if nm in extracted or nm in keyed or not any(d.rsplit(".", 1)[-1].endswith("property") for d in f.decorators):
+                continue
+            reads = {n.attr for n in walk_local(f.node) if isinstance(n, ast.Attribute) and isinstance(n.value, ast.Name)
+                     and f.params and n.value.id == f.params[0]}
+            if reads & extracted:
+                extracted.add(nm)
+                grew = True
+    return extracted, keyed
+
+
+def _value_reads(ctx, fn: FuncInfo, extracted, skip_names=()):
+    """Reads of an extracted (non cache key) bind attribute off something computed from the visited element
+    (`fn`'s first parameter after self): in `fn` itself and in the same-module helpers it calls, whatever the
+    locals are called.  -> [(text of the read, name of the function it is in, line)]."""
+    from ._helpers_rob_c2 import Scope
+    sc = Scope(ctx, fn)
+    elem = "param:" + fn.params[1]
+    hits = []
+    for s in sc.with_helpers():
+        if s is not sc and s.info is not None and s.info.name in skip_names:
+            continue  # sibling visitors are instances of their own
+        for n in s.local_walk():
+            recv = attr = None
+            if isinstance(n, ast.Attribute) and isinstance(n.ctx, ast.Load) and n.attr in extracted:
+                recv, attr = n.value, n.attr
+            elif isinstance(n, ast.Call) and isinstance(n.func, ast.Name) and n.func.id in ("getattr", "hasattr") \
+                    and len(n.args) >= 2 and isinstance(n.args[1], ast.Constant) and n.args[1].value in extracted:
+                recv, attr = n.args[0], n.args[1].value
+            if recv is None:
+                continue
+            at = s.node_of(n)
+            if at is None or not s.rd.reachable(at):
+                continue
+            if elem in s.deps(recv, at):
+                hits.append((f"{unparse(recv)}.{attr}", s.info.qualname if s.info is not None else s.name, n.lineno))
+    return hits
+
+
+@R.rule("C08-R4", floor=19, template="T-FLOW (compile-time read set vs cache key)",
+        desc="what a LIKE family visitor renders is decided at compile time and shared through the compiled cache: "
+             "the visitor (and the helpers it calls) never reads an attribute of a bound operand that "
+             "BindParameter keeps out of its cache key (value / callable / effective_value) -- ESCAPE, percent "
+             "placement and lower() depend on binary.modifiers / the operator only")
+def r4(ctx):
+    extracted, keyed = _extracted_bind_attrs(ctx)
+    ctx.ok("sql/elements.py::BindParameter:extracted-attributes",
+           f"not in the cache key: {sorted(extracted)}; in the key: {sorted(keyed)}")
+    for cls, fn in _family_visitors(ctx):
+        ctx.functions_analysed.add(fn.key)
+        ctx.require(len(fn.params) >= 2, f"{fn.key}: no element parameter")
+        hits = _value_reads(ctx, fn, extracted, skip_names=set(_FAMILY))
+        key = f"{cls.key}.{fn.name}:reads-only-keyed-state"
+        ctx.check(not hits, key,
+                  f"{fn.name} decides the rendered SQL from "
+                  + ", ".join(f"`{t}` (in {w}, line {ln})" for t, w, ln in hits[:3])
+                  + f": BindParameter keeps {sorted(extracted)} out of its cache key (the value is extracted and "
+                    "re-bound on every execution), so the string compiled for the first operand -- e.g. with or "
+                    "without its ESCAPE clause -- is reused from the compiled cache for every later operand of "
+                    "the same statement shape",
+                  "no read of an extracted bind attribute", fn.loc,
+                  [f"{w}:{ln}: {t}" for t, w, ln in hits] or None)
+
+
+# ---------------------------------------------------------------------------------------- R5
+def _ci_path(ctx, cls: ClassInfo, stem: str, escape: str):
+    """Follow visit_i<stem>_op_binary -> ... -> terminal LIKE visitor in the model.
+    -> (right operand is lower()ed, escape character of the rendered ESCAPE clause)."""
+    fn = ctx.index.resolve_method(cls, f"visit_i{stem}_op_binary")
+    if fn is None:
+        raise Unsupported(f"visit_i{stem}_op_binary not resolvable")
+    val, binary, selfobj = _run_visitor(ctx, cls, fn, escape)
+    hops = 0
+    while isinstance(val, _Delegated):
+        hops += 1
+        if hops > 4:
+            raise Unsupported("delegation chain too long")
+        b2 = val.args[0] if val.args and isinstance(val.args[0], _Binary) else val.kwargs.get("binary")
+        op = val.args[1] if len(val.args) > 1 else val.kwargs.get("operator")
+        nxt = ctx.index.resolve_method(cls, val.name)
+        if not isinstance(b2, _Binary) or nxt is None:
+            raise Unsupported("delegation without the binary expression")
+        binary = b2
+        kw = dict(val.kwargs)
+        kw.pop("binary", None)
+        kw.pop("operator", None)
+        val, _b, _s = _run_visitor(ctx, cls, nxt, escape, binary=b2, operator=op)
+    if not isinstance(val, str):
+        raise Unsupported("terminal visitor does not render a string in the model")
+    right = binary.attrs["right"]
+    lowered = isinstance(right, _Term) and "r" in right.flat()
+    toks = val.split()
+    rendered = None
+    for i, t in enumerate(toks):
+        if t.upper() == "ESCAPE" and i + 1 < len(toks) and toks[i + 1].startswith("<lit:") and toks[i + 1].endswith(">"):
+            rendered = toks[i + 1][len("<lit:"):-1]
+    if rendered is None:
+        raise Unsupported(f"no ESCAPE clause in the model rendering `{val}`")
+    return lowered, rendered
+
+
+@R.rule("C08-R5", floor=4, template="T-PATH/T-FLOW (bounded model: escape chain composed with lower())",
+        desc="case-insensitive variants rendered as lower(x) LIKE lower(pattern) ESCAPE e: the pattern produced by "
+             "the autoescape chain, after lower(), still decodes under the rendered ESCAPE character to the "
+             "lower-cased literal operand -- for the default, a non-letter, an upper-case and a lower-case letter "
+             "escape character")
+def r5(ctx):
+    f, _p_fn, run = _chain_runner(ctx)
+    base = ctx.index.cls(f"{COMP}::SQLCompiler")
+    classes = [("default", None), ("non-letter", "^"), ("upper-case-letter", "X"), ("lower-case-letter", "x")]
+    for label, e in classes:
+        key = f"{f.key}:case-insensitive:escape={label}"
+        _a, kws0 = run("", e, True)
+        eff = kws0.get("escape")
+        if not (isinstance(eff, str) and len(eff) == 1):
+            ctx.violation(key, f"with escape={e!r} the forwarded escape is {eff!r}, not a single character", f.loc)
+            continue
+        # how the compiler renders the i-variants: is the pattern lower()ed, which character follows ESCAPE
+        paths = {}
+        for stem in STEMS:
+            try:
+                paths[stem] = _ci_path(ctx, base, stem, eff)
+            except Unsupported as ex:
+                ctx.note(f"{key}: model of visit_i{stem}_op_binary not possible ({ex}); the clauses C08-R3 enforces "
+                         "are assumed (pattern wrapped in lower(), ESCAPE rendered verbatim from the modifier)")
+                paths[stem] = (True, eff)
+        witness = None
+        n = 0
+        alphabet = []
+        for ch in ("%", "_", eff, eff.swapcase(), "a", "A"):
+            if ch not in alphabet:
+                alphabet.append(ch)
+        for stem, (lowered, rendered) in sorted(paths.items()):
+            if not lowered:
+                continue  # native case-insensitive LIKE: the backend's matching of the escape character is not decided
+            for s in strings_over(alphabet, 3):
+                n += 1
+                args, kws = run(s, e, True)
+                if len(args) != 1 or not isinstance(args[0], str):
+                    witness = f"operand {s!r}: forwarded {args}"
+                    break
+                pat = args[0].lower()
+                dec = _like_decode(pat, rendered)
+                how = f"i{stem}({s!r}, escape={eff!r}, autoescape=True) -> lower({args[0]!r}) = {pat!r} ESCAPE {rendered!r}"
+                if isinstance(dec, str):
+                    witness = f"{how}: {dec}"
+                elif any(k == "wild" for k, _ in dec):
+                    witness = f"{how}: {[c for k, c in dec if k == 'wild'][0]!r} is left as an active wildcard"
+                elif "".join(c for _, c in dec) != s.lower():
+                    witness = f"{how} matches the literal {''.join(c for _, c in dec)!r} instead of {s.lower()!r}"
+                if witness:
+                    break
+            if witness:
+                break
+        ctx.check(witness is None, key,
+                  f"case-insensitive variants with a {label} escape character: lower() is applied to the already "
+                  f"escaped pattern, but the ESCAPE clause keeps the original character: {witness}",
+                  f"{n} operands over {alphabet}: lower(pattern) decodes to lower(operand)", f.loc,
+                  [witness] if witness else None)
+
+
 # ---------------------------------------------------------------------------------------- self test
 _CHAIN = ('        other = other.replace(escape, escape + escape)\n'
           '        for wildcard in ("%", "_"):\n'
@@ -1075,3 +1295,57 @@ R.mutant("r3-pg-ilike-fstring-renders-like", "dialects/postgresql/base.py",
              '        text = f"{left_sql} LIKE {right_sql}"\n        if escape is not None:\n'
              '            text += " ESCAPE " + self.render_literal_value(\n                escape, sqltypes.STRINGTYPE\n            )\n'
              '        return text\n'), "C08-R3")
+
+# ---- str2-a (round 2 seeds) ---------------------------------------------------------------------------------
+_SW = ("    def visit_startswith_op_binary(self, binary, operator, **kw):\n        binary = binary._clone()\n"
+       "        percent = self._like_percent_literal\n"
+       "        binary.right = percent._rconcat(binary.right)\n"
+       "        return self.visit_like_op_binary(binary, operator, **kw)\n")
+# seed C08_3: ESCAPE elided when the bound prefix (read at compile time) contains nothing to escape
+R.mutant("r4-seed3-escape-elided-by-bind-value", COMP,
+         sub(_SW, "    def visit_startswith_op_binary(self, binary, operator, **kw):\n        binary = binary._clone()\n"
+             "        percent = self._like_percent_literal\n"
+             "        escape = binary.modifiers.get(\"escape\", None)\n"
+             "        if (\n            escape\n            and isinstance(binary.right, elements.BindParameter)\n"
+             "            and isinstance(binary.right.value, str)\n"
+             "            and not set(binary.right.value).intersection((\"%\", \"_\", escape))\n        ):\n"
+             "            binary.modifiers = {**binary.modifiers, \"escape\": None}\n"
+             "        binary.right = percent._rconcat(binary.right)\n"
+             "        return self.visit_like_op_binary(binary, operator, **kw)\n"), "C08-R4")
+# the same decision hidden in a helper that receives the operand under another name, reading the property
+R.mutant("r4-helper-reads-effective-value-of-operand", COMP,
+         sub(_SW, "    def _is_plain_prefix(self, operand):\n"
+             "        text = getattr(operand, \"effective_value\", None)\n"
+             "        return isinstance(text, str) and text.isalnum()\n\n"
+             "    def visit_startswith_op_binary(self, binary, operator, **kw):\n        rewritten = binary._clone()\n"
+             "        pattern = rewritten.right\n"
+             "        if self._is_plain_prefix(pattern):\n"
+             "            rewritten.modifiers = dict(rewritten.modifiers, escape=None)\n"
+             "        rewritten.right = self._like_percent_literal._rconcat(pattern)\n"
+             "        return self.visit_like_op_binary(rewritten, operator, **kw)\n"), "C08-R4")
+R.mutant("r4-pg-ilike-renders-like-for-caseless-value", "dialects/postgresql/base.py",
+         sub("    def visit_ilike_op_binary(self, binary, operator, **kw):\n        escape = binary.modifiers.get(\"escape\", None)\n",
+             "    def visit_ilike_op_binary(self, binary, operator, **kw):\n        escape = binary.modifiers.get(\"escape\", None)\n"
+             "        operand = binary.right\n"
+             "        if getattr(operand, \"callable\", None) is None and str(getattr(operand, \"value\", \"a\")).isdigit():\n"
+             "            return self.visit_like_op_binary(binary, operator, **kw)\n"), "C08-R4")
+# benign neighbours: the operand is aliased / handed to a helper / a *keyed* attribute of it is read
+R.mutant("benign-startswith-operand-alias-and-helper", COMP,
+         sub(_SW, "    def _with_trailing_percent(self, operand):\n"
+             "        return self._like_percent_literal._rconcat(operand)\n\n"
+             "    def visit_startswith_op_binary(self, binary, operator, **kw):\n        rewritten = binary._clone()\n"
+             "        prefix = rewritten.right\n"
+             "        rewritten.right = self._with_trailing_percent(prefix)\n"
+             "        return self.visit_like_op_binary(rewritten, operator, **kw)\n"), None)
+R.mutant("benign-startswith-reads-keyed-state-only", COMP,
+         sub(_SW, "    def visit_startswith_op_binary(self, binary, operator, **kw):\n        binary = binary._clone()\n"
+             "        percent = self._like_percent_literal\n"
+             "        has_escape = binary.modifiers.get(\"escape\", None) is not None\n"
+             "        operand = binary.right\n"
+             "        operand_type = operand.type if has_escape else None\n"
+             "        assert operand_type is None or has_escape\n"
+             "        binary.right = percent._rconcat(operand)\n"
+             "        return self.visit_like_op_binary(binary, operator, **kw)\n"), None)
+# R5: the default escape character must survive lower()
+R.mutant("r5-default-escape-upper-case-letter", OPS, sub('            escape = "/"\n', '            escape = "E"\n'), "C08-R5")
+R.mutant("r5-default-escape-lower-case-letter", OPS, sub('            escape = "/"\n', '            escape = "q"\n'), "C08-R5")
